@@ -5,7 +5,7 @@ use genawaiter::yield_;
 use crate::access::NodeEdge;
 use crate::error::Error;
 use crate::id::{Name, NameId, NamespaceId, PrefixId};
-use crate::output::FullnameSerializer;
+use crate::output::{FullnameSerializer, NamespaceDeclarations};
 use crate::xmlvalue::Prefixes;
 use crate::xotdata::{Node, Xot};
 use crate::{xmlname, Value};
@@ -713,7 +713,10 @@ impl Xot {
     /// Deduplicate namespaces.
     ///
     /// Any namespace definition lower down that defines a prefix for a
-    /// namespace that is already known in an ancestor is removed.
+    /// namespace that is already known in an ancestor is removed, as long as
+    /// every name below it can still be written: the definition stays if the
+    /// prefix known in the ancestor is bound to another namespace somewhere
+    /// below it.
     ///
     /// There is a special rule for attributes, as they can only be in a
     /// namespace if they have an explicit prefix; the prefix is not removed if
@@ -761,80 +764,112 @@ impl Xot {
     /// # Ok::<(), xot::Error>(())
     /// ```
     pub fn deduplicate_namespaces(&mut self, node: Node) {
-        let mut fullname_serializer = FullnameSerializer::new(self, vec![]);
-        let mut fixup_nodes = Vec::new();
-        let mut deduplicate_tracker = DeduplicateTracker::new();
-        // determine nodes we need to fix up
+        // Removing a declaration can make another one redundant (it may have
+        // been the one that bound the prefix another declaration can be
+        // replaced by to something else), so we repeat until nothing is
+        // removed anymore. A second call then has nothing left to do.
+        while self.deduplicate_namespaces_pass(node) {}
+    }
+
+    // A single pass of deduplicate_namespaces. Returns whether anything was
+    // removed.
+    fn deduplicate_namespaces_pass(&mut self, node: Node) -> bool {
+        // the declarations we keep on the elements that are open, outermost
+        // first; this is what is in scope in the result
+        let mut kept_stack: Vec<NamespaceDeclarations> = Vec::new();
+        let mut to_remove = Vec::new();
         for edge in self.traverse(node) {
             match edge {
                 NodeEdge::Start(node) => {
                     if self.is_element(node) {
-                        // an attribute in a namespace *has* to have a non-empty
-                        // prefix. This means we cannot remove a prefix if that
-                        // prefix overlaps with a previously defined default
-                        // namespace: that's fine for elements which fall
-                        // in the default namespace, but not for attributes.
-                        // The tracker keeps track of all this.
-                        deduplicate_tracker.push(self, node);
-                        // we don't need to remove the fixed up prefixes because
-                        // as duplicates they will definitely exist.
-                        // In fact if we remove them first the push will fail to create
-                        // a new entry in the namespace stack, as prefixes can become empty
-                        fullname_serializer.push(self.namespace_declarations(node));
+                        let mut kept = Vec::new();
+                        for (prefix, namespace) in self.namespace_declarations(node) {
+                            if self.is_redundant_declaration(node, prefix, namespace, &kept_stack)
+                            {
+                                to_remove.push((node, prefix));
+                            } else {
+                                kept.push((prefix, namespace));
+                            }
+                        }
+                        kept_stack.push(kept);
                     }
                 }
                 NodeEdge::End(node) => {
                     if self.is_element(node) {
-                        // to_prefix is only used to determine whether to pop
-                        // so should be okay to send here
-                        fullname_serializer.pop(self.has_namespace_declarations(node));
-                        deduplicate_tracker.pop();
-                        // if we already know a namespace, remove it
-                        // we do this at the end so the deduplicate tracker
-                        // has had a change to do its work for sub-elements
-                        let namespaces = self.namespaces(node);
-                        let to_remove = namespaces
-                            .iter()
-                            .filter_map(|(_, namespace_id)| {
-                                // an undeclaration (xmlns="") is never redundant because of
-                                // some other binding to the empty namespace
-                                if *namespace_id != self.no_namespace()
-                                    && fullname_serializer.is_namespace_known(*namespace_id)
-                                    && deduplicate_tracker.is_safe_to_remove(*namespace_id)
-                                {
-                                    Some(*namespace_id)
-                                } else {
-                                    None
-                                }
-                            })
-                            .collect::<Vec<_>>();
-                        if !to_remove.is_empty() {
-                            fixup_nodes.push((node, to_remove.clone()));
-                        }
+                        kept_stack.pop();
                     }
                 }
             }
         }
-        // now actually fix up the nodes, removing superfluous namespaces
-        // TODO: this whole thing is a bit a multi-step mess. Perhaps
-        // direct namespace node access would help.
-        let mut fixup_prefixes = Vec::new();
-        for (node, to_remove) in fixup_nodes {
-            let namespaces = self.namespaces(node);
-            for namespace_id in to_remove {
-                let prefixes_to_remove = namespaces
-                    .iter()
-                    .filter(|(_, ns)| **ns == namespace_id)
-                    .map(|(prefix, _)| prefix);
-                fixup_prefixes.push((node, prefixes_to_remove.collect::<Vec<_>>()));
+        let removed = !to_remove.is_empty();
+        for (node, prefix) in to_remove {
+            self.namespaces_mut(node).remove(prefix);
+        }
+        removed
+    }
+
+    // The declaration of prefix for namespace on node is redundant if without
+    // it every name below node can still be written: the same prefix is
+    // already bound to the namespace above, or another prefix is that is not
+    // bound to something else anywhere below. An attribute in a namespace
+    // *has* to have a non-empty prefix, so a default namespace cannot replace
+    // a prefix if an attribute below is in the namespace.
+    fn is_redundant_declaration(
+        &self,
+        node: Node,
+        prefix: PrefixId,
+        namespace: NamespaceId,
+        kept_stack: &[NamespaceDeclarations],
+    ) -> bool {
+        // an undeclaration (xmlns="") is never redundant because of some
+        // other binding to the empty namespace
+        if namespace == self.no_namespace() {
+            return false;
+        }
+        let mut seen = Vec::new();
+        for declarations in kept_stack.iter().rev() {
+            for (known_prefix, known_namespace) in declarations {
+                // only the nearest declaration of a prefix counts
+                if seen.contains(known_prefix) {
+                    continue;
+                }
+                seen.push(*known_prefix);
+                if *known_namespace != namespace {
+                    continue;
+                }
+                if *known_prefix == prefix {
+                    return true;
+                }
+                if self.is_prefix_rebound(node, *known_prefix, namespace) {
+                    continue;
+                }
+                if *known_prefix == self.empty_prefix()
+                    && self.has_attribute_in_namespace(node, namespace)
+                {
+                    continue;
+                }
+                return true;
             }
         }
-        for (node, prefix) in fixup_prefixes {
-            let mut namespaces = self.namespaces_mut(node);
-            for prefix in prefix {
-                namespaces.remove(prefix);
-            }
-        }
+        false
+    }
+
+    // Is prefix declared for another namespace on node or a descendant?
+    fn is_prefix_rebound(&self, node: Node, prefix: PrefixId, namespace: NamespaceId) -> bool {
+        self.descendants(node).any(|descendant| {
+            self.namespaces(descendant)
+                .iter()
+                .any(|(p, ns)| p == prefix && *ns != namespace)
+        })
+    }
+
+    // Does node or a descendant have an attribute in namespace?
+    fn has_attribute_in_namespace(&self, node: Node, namespace: NamespaceId) -> bool {
+        self.descendants(node).any(|descendant| {
+            self.attributes(descendant)
+                .keys()
+                .any(|name| self.namespace_for_name(name) == namespace)
+        })
     }
 
     pub(crate) fn prefixes_in_scope(&self, node: Node) -> Prefixes {
@@ -892,56 +927,6 @@ impl Xot {
         let mut prefixes = Prefixes::new();
         prefixes.insert(self.xml_prefix_id, self.xml_namespace_id);
         prefixes
-    }
-}
-
-struct DeduplicateTracker {
-    stack: Vec<DeduplicateTrackerEntry>,
-}
-
-struct DeduplicateTrackerEntry {
-    default_namespace: Option<NamespaceId>,
-    in_use_by_attribute: bool,
-}
-
-impl DeduplicateTracker {
-    fn new() -> Self {
-        Self { stack: Vec::new() }
-    }
-
-    fn push(&mut self, xot: &Xot, node: Node) {
-        let namespaces = xot.namespaces(node);
-        let default_namespace = namespaces.get(xot.empty_prefix());
-        self.stack.push(DeduplicateTrackerEntry {
-            default_namespace: default_namespace.copied(),
-            in_use_by_attribute: false,
-        });
-        for attribute_name in xot.attributes(node).keys() {
-            self.attribute_name(xot, attribute_name);
-        }
-    }
-
-    fn pop(&mut self) {
-        self.stack.pop();
-    }
-
-    fn attribute_name(&mut self, xot: &Xot, name: NameId) {
-        let namespace = xot.namespace_for_name(name);
-        for entry in self.stack.iter_mut().rev() {
-            if entry.default_namespace == Some(namespace) {
-                entry.in_use_by_attribute = true;
-                return;
-            }
-        }
-    }
-
-    fn is_safe_to_remove(&self, namespace: NamespaceId) -> bool {
-        for entry in self.stack.iter().rev() {
-            if entry.default_namespace == Some(namespace) {
-                return !entry.in_use_by_attribute;
-            }
-        }
-        true
     }
 }
 
